@@ -104,7 +104,8 @@ CHECKS.update(
         "_from_render_data_ with and without ownership) run on an instrumented renderable; the index of the failing frame render is a "
         "z3 variable (the engine forks at every render), the failure kind and the outcome of size validation are solver-chosen. At the "
         "end of every path each library-owned RenderData was finalized exactly once, caller-owned data never, no _render_ saw finalized "
-        "data, finished iterators stop and reject control operations.",
+        "data, finished iterators stop and reject control operations; cached and uncached iterators; data is not finalized while its "
+        "iterator is still open.",
         note="Trusted: CPython reference counting for __del__, z3, engine. Finalization is demanded when the operation ends or fails, "
         "not deferred to garbage collection of data the caller never received.",
         design="3 C10",
@@ -121,7 +122,8 @@ CHECKS.update(
         "of length <= 5 (quick) / 7 (thorough) whose characters are z3 integers over printable ASCII, with the compiled patterns "
         "replaced by a backtracking matcher over the same sre_parse trees; a reference parser written from the documentation runs on the "
         "same characters; acceptance, error type, alignment, padding size, alpha, style arguments and the draw()-parameter equivalence are "
-        "unsat queries per path.",
+        "unsat queries per path. (C) representative specifiers used three times under three symbolic terminal sizes with rejected "
+        "specifiers in between: the meaning depends only on the specifier and the terminal size at the time of use.",
         note="Trusted: z3 (sequence/regex theory), the symbolic matcher sx/rx.py (differentially tested against re on every run), the "
         "reference parser (harness/C19.py, from docs/source/guide/formatting.rst). Strings longer than the bound are covered by (A) only.",
         design="3 C19",
@@ -234,7 +236,10 @@ CHECKS.update(
         "and the flags are z3 variables; frame count, loops, render height and vertical padding are enumerated. The stream is interpreted "
         "by the terminal model with scroll tracking and a symbolic probe cell: last frame exactly where the first was drawn, padding "
         "blank, everything else untouched, cursor at column 0 of the line below, visible, attributes reset, scrolled exactly as needed; "
-        "size validation raises the documented error iff the documented rule says so, with nothing written.",
+        "size validation raises the documented error iff the documented rule says so, with nothing written (aligned and exact padding). "
+        "Part kitty_clearing: a two-frame animation through the real kitty draw path (draw, _display_animated, _clear_frame, clear, "
+        "_render_image) for four terminal versions around the 0.25.0 boundary; the terminal model decides which placements survive the "
+        "delete commands: exactly the last frame's.",
         note="Trusted: terminal model, z3, engine. Frames are abstract glyph boxes (C01 gives the box contract for the real styles); "
         "frame count <= 3, loops <= 2, height <= 3, vertical padding <= 3 (enumerated); cursor starts at column 0.",
         design="3 C06",
@@ -263,7 +268,9 @@ CHECKS.update(
         "start racing with calls, children, a grandchild, nested re-entrant calls; fork and spawn) are unrolled for K scheduler steps into a "
         "finite-domain z3 transition relation (program counters, per-thread lock temporaries and held-lock stacks, per-process globals, "
         "lock owner/count) with one scheduler-choice variable per step; K covers every complete interleaving of the scenario. Queries: "
-        "no reachable state has two agents inside synchronized bodies; no reachable state is a deadlock. A sat trace is replayed on the real "
+        "no reachable state has two agents inside synchronized bodies; no reachable state is a deadlock. Which of the documented entry "
+        "points (query_terminal, read_tty, write_tty, UrwidImageScreen.draw_screen/flush/get_available_raw_input/write) are wrapped is read "
+        "from the source; each runs against a synchronized query in its own scenario. A sat trace is replayed on the real "
         "wrappers with real threads and instrumented locks under a controller enforcing the schedule.",
         note="Trusted: the environment model of threading/multiprocessing locks and process start (stated in the evidence), the ast "
         "skeleton extractor (fails loudly on unknown shapes), z3. Agents and steps bounded per scenario; real OS scheduling and "
